@@ -290,7 +290,7 @@ def select(jobs, prop):
     return out
 
 
-def run_property(prop, extra_jobs=(), assumptions=(), checker='goto-cc | [goto-instrument --apply-loop-contracts] | cbmc ' + ' '.join(FLAGS) + ' (each File.cpp function against its contract, callees replaced by the stubs of their contracts)'):
+def run_property(prop, extra_jobs=(), assumptions=(), post_hook=None, checker='goto-cc | [goto-instrument --apply-loop-contracts] | cbmc ' + ' '.join(FLAGS) + ' (each File.cpp function against its contract, callees replaced by the stubs of their contracts)'):
     meta = core.ensure_extracted()
     info = classinfo.Info(meta)
     jobs = select(all_jobs(info), prop) + list(extra_jobs(info) if callable(extra_jobs) else extra_jobs)
@@ -305,6 +305,7 @@ def run_property(prop, extra_jobs=(), assumptions=(), checker='goto-cc | [goto-i
     results = core.keep_property(core.run_jobs(jobs), prop)
     rep.add_results(results)
     core.triage(rep, results, info)
+    if post_hook: post_hook(rep)
     return rep.finish('proof', checker, core.TRUSTED_BASE)
 
 
